@@ -1296,7 +1296,11 @@ def ntdll_RtlExtendedIntegerMultiply(jitter):
                                              'multiplicand_high',
                                              'multiplier'])
     a = (args.multiplicand_high << 32) + args.multiplicand_low
-    a = a * args.multiplier
+    # The multiplier is a (signed) LONG
+    multiplier = args.multiplier
+    if multiplier & 0x80000000:
+        multiplier -= 1 << 32
+    a = a * multiplier
     jitter.func_ret_stdcall(ret_ad, a & 0xffffffff, (a >> 32) & 0xffffffff)
 
 
